@@ -54,33 +54,63 @@ def check_singleton_lock(ctx, rid):
                             if isinstance(h, ast.ExceptHandler):
                                 mark(h.body, locked)
     mark(f.node.body, False)
-    ctx.ob(rid, 'lock:acquired', _loc(f, f.node), f'get_default_instance takes `with {clsname}.{lock_attr}`', bool(withs),
-           'the getter no longer acquires the class lock (the pre-0.5.0 race)')
     accesses = [n for n in own_nodes(f.node) if isinstance(n, ast.Attribute) and n.attr == inst_attr
                 and (is_name(n.value, clsname) or is_name(n.value, c.name))]
+    inits = [n for n in own_nodes(f.node) if isinstance(n, ast.Call) and isinstance(n.func, ast.Attribute)
+             and n.func.attr == 'default_initialization']
+    # publication order: the class attribute receives a local object whose default_initialization() call has returned.  Then
+    # whoever sees the attribute non-None sees a complete lexer, and a failure during initialisation (an exception unwinding
+    # through the first call) leaves the attribute None for the next call to try again.
+    stores = [n for n in own_nodes(f.node) if isinstance(n, ast.Assign) and any(isinstance(t, ast.Attribute) and t.attr == inst_attr and
+              (is_name(t.value, clsname) or is_name(t.value, c.name)) for t in n.targets)]
+    ctx.need(stores, 'get_default_instance never assigns the class attribute')
+    published_complete = True
+    for st in stores:
+        v = st.value
+        ok = False
+        why = f'`{src(st)}` publishes the object before default_initialization() has run on it'
+        if isinstance(v, ast.Name):
+            prior = [i for i in inits if is_name(i.func.value, v.id) and (i.lineno, i.col_offset) < (st.lineno, st.col_offset)]
+            # same straight-line block: the init call is an earlier statement of the block that contains the store
+            blk = next((b_ for b_ in _blocks(f.node) if st in b_), [])
+            ok = any(any(x is i for s_ in blk[:blk.index(st)] for x in ast.walk(s_)) for i in prior)
+            if not ok:
+                why = f'no `{v.id}.default_initialization()` precedes `{src(st)}` in its block'
+        ctx.ob(rid, f'publish-after-init:L{st.lineno - f.node.lineno}', _loc(f, st),
+               'the class attribute is assigned a local instance after default_initialization() returned on it', ok,
+               why + ': another caller (an unlocked reader, or the next call after this one failed part-way, e.g. with a RecursionError) '
+               'obtains a lexer with an empty or partial rule table and every character becomes an Error token')
+        published_complete = published_complete and ok
+    ctx.ob(rid, 'lock:acquired', _loc(f, f.node), f'get_default_instance takes `with {clsname}.{lock_attr}` (or publishes only complete instances)',
+           bool(withs) or published_complete, 'the getter no longer acquires the class lock (the pre-0.5.0 race)')
     rets = [n for n in own_nodes(f.node) if isinstance(n, ast.Return)]
     final_ret = f.node.body[-1] if isinstance(f.node.body[-1], ast.Return) else None
     for a in accesses:
         in_final_return = final_ret is not None and any(x is a for x in ast.walk(final_ret))
         kind = 'write' if isinstance(a.ctx, ast.Store) else 'read'
-        ok = id(a) in inside or (in_final_return and kind == 'read')
+        ok = id(a) in inside or (in_final_return and kind == 'read') or published_complete
         ctx.ob(rid, f'access:{kind}:L{a.lineno - f.node.lineno}:{a.col_offset}', _loc(f, a),
-               f'{kind} of {clsname}.{inst_attr} happens under the lock (or is the final return)', ok,
+               f'{kind} of {clsname}.{inst_attr} happens under the lock, is the final return, or can only observe a complete instance', ok,
                f'{kind} of {clsname}.{inst_attr} at line {a.lineno} is outside `with {clsname}.{lock_attr}`: another thread can observe the '
                'instance between its creation and default_initialization() (unlocked fast path / double-checked locking)')
-    # default_initialization on the new instance inside the same with
-    inits = [n for n in own_nodes(f.node) if isinstance(n, ast.Call) and isinstance(n.func, ast.Attribute)
-             and n.func.attr == 'default_initialization']
-    ok = bool(inits) and all(id(n) in inside for n in inits)
+    ok = bool(inits) and (all(id(n) in inside for n in inits) or published_complete)
     ctx.ob(rid, 'init-under-lock', _loc(f, inits[0] if inits else f.node),
-           'default_initialization() of the new instance runs inside the same locked region', ok,
+           'default_initialization() of the new instance runs before it is visible to others (inside the locked region / before publication)', ok,
            'the instance is published before/without being initialised under the lock')
-    # publication order: if the class attribute is assigned before initialisation, readers must be locked (checked above);
-    # returns other than the final one must be inside the lock
     for r in rets:
         if r is not final_ret:
-            ctx.ob(rid, f'return:L{r.lineno - f.node.lineno}', _loc(f, r), 'early return is inside the locked region', id(r) in inside,
-                   'early return outside the lock')
+            ctx.ob(rid, f'return:L{r.lineno - f.node.lineno}', _loc(f, r), 'early return is inside the locked region or returns a complete instance',
+                   id(r) in inside or published_complete, 'early return outside the lock')
+
+
+def _blocks(fnode):
+    out = []
+    for n in ast.walk(fnode):
+        for fld in ('body', 'orelse', 'finalbody'):
+            b = getattr(n, fld, None)
+            if isinstance(b, list) and b and isinstance(b[0], ast.stmt):
+                out.append(b)
+    return out
 
 
 def check_request_path_readonly(ctx, rid):
